@@ -6,6 +6,7 @@ CONSTANTS
     SrvKinds = {"chclose"}
     Faults = {}
     ClientClose = FALSE
+    Compliant = FALSE
     Bug = {"noterminal"}
 SPECIFICATION Spec
 INVARIANTS Pairing NothingAfterClose Released NoStuckCaller SlotsLive OneTerminal
